@@ -20,7 +20,7 @@ func treeConfigs() []seqCfg {
 		b64(Value("d", 1)), recent, b64(Value("x", 1)), recent)
 	return []seqCfg{
 		{Name: "tree-two-secrets-server-changes-failures-polls-restart", Expiry: 0, Declared: []string{"d"}, Names: []string{"d", "x"}, Initial: initial, NoDedup: true,
-			Events: []string{"put:d", "back:d", "failnext:d", "put:x", "back:x", "failnext:x", "poll", "restart"}},
+			Events: []string{"put:d", "back:d", "failnext:d", "nfnext:d", "put:x", "back:x", "failnext:x", "poll", "restart"}},
 	}
 }
 
@@ -166,7 +166,7 @@ func TestCheck(t *testing.T) {
 		}
 		if env.Shard == 0 {
 			runSeq(env, rep, "C11", 5, 6, false)
-			runSeqCfgs(env, rep, "C11", 6, 7, false, treeConfigs())
+			runSeqCfgs(env, rep, "C11", 5, 7, false, treeConfigs())
 		}
 		runSched(t, env, rep, map[string]bool{"C11": true}, "sched-polls-and-refreshes", pollScenarios(), 2, 3)
 		runSched(t, env, rep, map[string]bool{"C11": true}, "sched-ticker-cadence-virtual-time", cadenceScenarios(), 2, 3)
@@ -196,7 +196,16 @@ func TestCheck(t *testing.T) {
 			runSeq(env, rep, "C16", 4, 5, false)
 			checkLookupDisabled(rep)
 		}
-		runSched(t, env, rep, map[string]bool{"C16": true}, "sched-lookups-deadlines-cancellations", all, 2, 3)
+		// the five-thread hand-over chain is explored on its own with a smaller deviation bound (which
+		// caller leads each new request is a free choice, so bound 0 already covers every leadership order)
+		var rest []*scen
+		for _, sc := range all {
+			if !strings.HasPrefix(sc.Name, "L11 ") {
+				rest = append(rest, sc)
+			}
+		}
+		runSched(t, env, rep, map[string]bool{"C16": true}, "sched-lookups-deadlines-cancellations", rest, 2, 3)
+		runSched(t, env, rep, map[string]bool{"C16": true}, "sched-hand-over-chain", pick(all, "L11 "), 0, 1)
 	case "C13":
 		checkC13(t, env, rep)
 	default:
